@@ -70,7 +70,19 @@ def replay_states(ctx, states, r):
       # the masks may arrive as floats, booleans or integers: the value must not depend on that
       mdt = [np.float64, np.float32, np.bool_, np.int32, np.uint8][nb % 5]
       try:
-        vs, adv = gae(trunc.astype(mdt), term.astype(mdt), rw, v, boot, dy(lam), dy(gam))
+        # (a bounded number of them - an un-compiled scan is slow -, spread over (T, lambda_, discount), lambda_ = 0 / 1 preferred)
+        per_T = ctx.extra.setdefault('_python_calls_per_T', {})
+        gk = f'{T}/{dy(lam)}/{dy(gam)}'
+        if per_T.get(gk, 0) < (2 if ctx.quick else 8) and (dy(lam) in (0.0, 1.0) or nb % 50 == 0):
+          per_T[gk] = per_T.get(gk, 0) + 1
+          ctx.extra['python_number_calls'] = ctx.extra.get('python_number_calls', 0) + 1
+          # un-compiled call with plain Python numbers for lambda_ and discount (0 and 1 as ints), as a user script passes them
+          pl, pg = dy(lam), dy(gam)
+          pl, pg = (int(pl) if pl in (0.0, 1.0) and nb % 2 else pl), (int(pg) if pg in (0.0, 1.0) and nb % 2 else pg)
+          vs, adv = losses.compute_gae(jnp.asarray(trunc.astype(mdt)), jnp.asarray(term.astype(mdt)), jnp.asarray(rw), jnp.asarray(v),
+                                       jnp.asarray(boot), pl, pg)
+        else:
+          vs, adv = gae(trunc.astype(mdt), term.astype(mdt), rw, v, boot, dy(lam), dy(gam))
         vs, adv = np.asarray(vs, np.float64), np.asarray(adv, np.float64)
       except Exception as e:  # the code under test failed: a verdict, not a machinery error
         ctx.violation(f'compute_gae raised for T={T} lambda={dy(lam)} discount={dy(gam)} mask dtype {np.dtype(mdt).name}: '
@@ -116,7 +128,7 @@ def run(ctx):
               'compute_gae (float64, batched into [T, B] with B in 1..4, columns all different) and compared '
               'bit-exactly. distinct = input tuple; non-trivial = at least one termination or truncation.')
   ctx.assumptions = ['dyadic inputs make float64 evaluation exact, so equality is bit-exact',
-                     'lambda_/discount passed as traced scalars through jax.jit']
+                     'lambda_/discount passed as traced scalars through jax.jit for two batches out of three, as plain Python numbers to the un-compiled function for the third']
   runs = [('c19-a', [1, 2, 3, 4], 'CoefsHalf', 2, 'ValsSmall')] if ctx.quick else \
       [('c19-a', [1, 2, 3, 4, 5], 'CoefsHalf', 3, 'ValsSmall'), ('c19-b', [1, 2, 3], 'CoefsQuarter', 3, 'ValsWide'),
        ('c19-c', [6, 7], 'CoefsHalf', 1, 'ValsSmall')]
